@@ -30,7 +30,9 @@ if go run -modfile="$MODFILE" ./cmd/overlaygen -repo "$REPO" -rt "$VERIF/mc/sche
   OVERLAY="$OV/overlay.json"
 fi
 built=0
-if [ -n "$OVERLAY" ] && go build -modfile="$MODFILE" -tags verif -overlay "$OVERLAY" -o "$BIN" ./cmd/check 2>"$VERIF/.bin/build.$$.log"; then
+RACEFLAG=""
+[ -n "${VERIF_RACE:-}" ] && RACEFLAG="-race"   # development only: the checker itself under the Go race detector
+if [ -n "$OVERLAY" ] && go build $RACEFLAG -modfile="$MODFILE" -tags verif -overlay "$OVERLAY" -o "$BIN" ./cmd/check 2>"$VERIF/.bin/build.$$.log"; then
   built=1; export VERIF_OVERLAY=1
 elif go build -modfile="$MODFILE" -tags verif -o "$BIN" ./cmd/check 2>"$VERIF/.bin/build.$$.log"; then
   # the tree builds but not under the overlay (a construct the shim does not cover):
